@@ -477,9 +477,10 @@ func (p *Printer) caseName(name string) string {
 		name = strings.ToLower(name)
 	case capitalizeKey:
 		name = strings.ToLower(name)
-		rn := []rune(name)
-		rn[0] = unicode.ToUpper(rn[0])
-		name = string(rn)
+		if rn := []rune(name); 0 < len(rn) {
+			rn[0] = unicode.ToUpper(rn[0])
+			name = string(rn)
+		}
 	}
 	if !strings.EqualFold(name, orig) {
 		// The case mapping of some letters, such as a dotless i, names a
